@@ -233,6 +233,31 @@ func legEntry(c *Ctx) {
 							fail("ReplaceFunc enumerated %s, FindNextMatch %s", seqStr(seen), seqStr(seqS))
 						}
 					}
+					// a bool-only call (quick program) immediately followed by Replace with group references:
+					// the enumeration inside Replace must see the same captures as ReplaceFunc
+					if ms != nil && utf8.ValidString(s) {
+						var sb strings.Builder
+						ng := len(ms.Groups())
+						for g := 1; g < ng; g++ {
+							fmt.Fprintf(&sb, "[${%d}]", re.GetGroupNumbers()[g])
+						}
+						sb.WriteString("<$&>")
+						repl := sb.String()
+						re.MatchString(s)
+						outR, eR := re.Replace(s, repl, -1, -1)
+						outF, eF := re.ReplaceFunc(s, func(m regexp2.Match) string {
+							var b strings.Builder
+							gs := m.Groups()
+							for g := 1; g < len(gs); g++ {
+								b.WriteString("[" + gs[g].String() + "]")
+							}
+							b.WriteString("<" + m.String() + ">")
+							return b.String()
+						}, -1, -1)
+						if eR == nil && eF == nil && outR != outF {
+							fail("Replace(%q) after MatchString = %+q, ReplaceFunc with the same expansion = %+q", repl, outR, outF)
+						}
+					}
 					if out, e6 := re.Replace(s, "$&", -1, -1); e6 == nil && utf8.ValidString(s) && out != s {
 						fail("Replace with $& changed the input to %+q", out)
 					}
